@@ -1,4 +1,5 @@
 """C20 — letter case and spare whitespace in the query never change the answer."""
+import re
 import json, os, random, shutil, subprocess, tempfile
 import core
 
@@ -100,10 +101,11 @@ def cli_pairs(ctx, n):
             if k % 5 == 4:
                 # a short fragment of a command NAME (no indexed token, too weak a typo match against the long
                 # descriptions): only the recovery search's whole-query substring strategy answers it
-                q = rnd.choice(["kub", "ube", "kube", "skaf", "kaff", "ubea", "bectl", "ubect"])
+                q = rnd.choice(["kub", "kube", "skaf", "kaff", "kubea", "kubec", "ube", "bectl"])
             v = "".join(c.upper() if rnd.random() < 0.5 else c for c in q)
-            if "k" in v and rnd.random() < 0.5:
-                v = v.replace("k", "\u212a", 1)
+            if ("k" in v or "K" in v) and rnd.random() < (0.85 if k % 5 == 4 else 0.5):
+                # U+212A KELVIN SIGN lower-cases to 'k' (and is three bytes long: length-preserving fold compares miss it)
+                v = re.sub("[kK]", "\u212a", v, count=1)
             # padding: ASCII and Unicode white space (everything unicode.IsSpace accepts), leading, trailing and repeated
             v = rnd.choice(["", " ", "  ", "\t", "\u00a0", " \u3000"]) + \
                 v.replace(" ", rnd.choice([" ", "  ", " \t ", " \u00a0", "\u2003 ", " \u3000 ", "\u00a0 \u2009"])) + rnd.choice(["", " ", "\n", "\u00a0", " \u2028"])
